@@ -30,6 +30,7 @@ const double cd = 2.5; const S cs1 = { 1, 2 }; typedef int[0,5] small_t; small_t
 int m2[2][3]; const int cm2[2][3] = { { 1, 2, 3 }, { 4, 5, 6 } }; S sarr[2]; const S csarr[2] = { { 1, 2 }, { 3, 4 } };
 void setint(int &r) { r = 1; } void setbint(int[0,5] &r) { r = 1; } void setdbl(double &r) { r = 1.0; }
 int as1[A_t]; int as2[A_t]; int bs1[B_t]; bool bas[A_t]; typedef int[-32768,32767] word_t; word_t w1; word_t wa[3]; typedef struct { word_t f; int k; } SW; SW sw1;
+typedef struct { int f; } SP; SP sp1; typedef struct { int f; int k; int z; } SL; SL sl1; typedef struct { double f; int k; } SD2; SD2 sd21;
 typedef int[0,32767] pos_t; pos_t p1; int[-32768,32767] ew; int[-32768,32767] ewa[3]; typedef scalar[3] C_t; int ia3s[C_t];
 int fi() { return 1; }
 double fd() { return 1.5; }
@@ -39,7 +40,7 @@ S fs_() { return s1; }
 DECL = DECL.replace("S fs_() { return s1; }\n", "")
 POOL = ["1", "0", "i", "i + j", "bi", "bj", "N", "-i", "true", "b", "b && c", "i < j", "1.5", "d", "d * e", "PI", "x", "y", "hx", "x - y",
         "x - 3", "sa1", "sa2", "sb1", "s1", "s2", "t1", "u1", "s1.f", "ia", "ib", "ic", "ba", "da", "ia[1]", "ch", "ch2", "bc", "uc",
-        "as1", "as2", "bs1", "bas", "w1", "wa", "sw1", "p1", "ew", "ewa", "ia3s", "wa[1]", "as1[sa1]",
+        "sp1", "sl1", "sd21", "as1", "as2", "bs1", "bas", "w1", "wa", "sw1", "p1", "ew", "ewa", "ia3s", "wa[1]", "as1[sa1]",
         "cv", "cbi", "cia", "cba", "cd", "cs1", "tv", "tva", "bia", "mi", "m2", "cm2", "sarr", "csarr", "cia[1]", "cs1.f", "m2[1]", "cm2[1]",
         "fi()", "fd()", "fb()", "(b ? i : j)", "(b ? d : e)", "i++", "forall (q : int[0,1]) ia[q] > 0", "sum (q : int[0,1]) ia[q]"]
 OPS = ["+", "*", "==", "!=", "&&", "||", "&", "|", "^", "<?", ">?", "and", "or"]
@@ -50,7 +51,7 @@ REF_TYPES = {
     "scalarA": ("A_t", ""), "scalarB": ("B_t", ""), "S": ("S", ""), "S2": ("S2", ""), "S3": ("S3", ""),
     "int3": ("int", "[3]"), "int4": ("int", "[4]"), "bool3": ("bool", "[3]"), "scalarA3": ("A_t", "[3]"),
     "intByA": ("int", "[A_t]"), "intByB": ("int", "[B_t]"), "word": ("word_t", ""), "word3": ("word_t", "[3]"), "explicitrange": ("int[-32768,32767]", ""),
-    "pos": ("pos_t", ""), "structW": ("SW", ""),
+    "pos": ("pos_t", ""), "structW": ("SW", ""), "structPrefix": ("SP", ""), "structLonger": ("SL", ""), "structD2": ("SD2", ""),
 }
 TEMPL_REF_TYPES = dict(REF_TYPES, clock=("clock", ""), chan=("chan", ""), bchan=("broadcast chan", ""), uchan=("urgent chan", ""),
                        hclock=("hybrid clock", ""), chan3=("chan", "[3]"))
@@ -169,6 +170,11 @@ def run(rep, tier, seed):
         # const reference parameters of type 'const int' carry no range (by design they accept every integer range),
         # so (const T &, U) and (const U &, T) compare different pairs of types: symmetry is demanded for plain
         # references only
+        INTLIKE = ("int", "bint", "bint2", "word", "pos", "explicitrange")
+        if fn == "g" and (fn, u, t) in facc and facc[(fn, u, t)][0] != ok and t < u and not (t.rstrip("0123456789") in INTLIKE and u.rstrip("0123456789") in INTLIKE):
+            rep.violation("C14:ref-param-asymmetric:function-const:%s/%s" % (t, u),
+                          "g_%s(v_%s) (const %s &) is %s but g_%s(v_%s) (const %s &) is %s" % (t, u, t, "accepted" if ok else "rejected", u, t, u,
+                                                                                                   "accepted" if facc[(fn, u, t)][0] else "rejected"), single)
         if fn == "f" and (fn, u, t) in facc and facc[(fn, u, t)][0] != ok and t < u:
             rep.violation("C14:ref-param-asymmetric:%s:%s/%s" % ("function" if fn == "f" else "function-const", t, u),
                           "%s_%s(v_%s) is %s but %s_%s(v_%s) is %s" % (fn, t, u, "accepted" if ok else "rejected", fn, u, t,
